@@ -1,4 +1,4 @@
-"""DESIGN NOTE (not framework code): minimal reproductions of the defects D01..D37 listed in DESIGN.md section 6.
+"""DESIGN NOTE (not framework code): minimal reproductions of the defects D01..D38 listed in DESIGN.md section 6.
 
 Run with   PYTHONPATH=<tree> /venv/bin/python repro_defects.py
 Prints one line per defect: PRESENT / absent.  Each function returns True when the defect shows.
@@ -284,6 +284,12 @@ def D37():
     ts = TypeSystem(); N = ts.create_type("a.N", TYPE_NAME_TOP); ts.create_feature(N, "self", TYPE_NAME_STRING_ARRAY)
     c = Cas(ts); c.add(N(self_=ts.get_type(TYPE_NAME_STRING_ARRAY)(elements=["a"])))
     return raises(lambda: load_cas_from_xmi(c.to_xmi(), ts))
+
+
+def D38():
+    ts = TypeSystem(); H = ts.create_type("a.H", TYPE_NAME_TOP); ts.create_feature(H, "l", TYPE_NAME_STRING_LIST)
+    c = Cas(ts); c.add(H(l=mklist(ts, "String", ["a", ""])))
+    return load_cas_from_xmi(c.to_xmi(), ts).select("a.H")[0].l.tail.head == "None"
 
 
 if __name__ == "__main__":
